@@ -330,6 +330,7 @@ func rlClone(w *World) {
 		})
 	}
 	cloneKinds := map[string]bool{}
+	var tpUses []*types.TypeParam
 	upd := w.fn("parser", "updateNodeIndex")
 	updO := w.fn("parser", "updateNodeIndexWithOptions")
 	for _, f := range p.Syntax {
@@ -346,12 +347,49 @@ func rlClone(w *World) {
 				return true
 			}
 			if tv, ok := info.Types[c.Args[2]]; ok {
-				if _, isTP := tv.Type.(*types.TypeParam); !isTP {
+				if tp, isTP := tv.Type.(*types.TypeParam); !isTP {
 					cloneKinds[tv.Type.String()] = true
+				} else {
+					tpUses = append(tpUses, tp)
 				}
 			}
 			return true
 		})
+	}
+	// a re-indexing call on a value of type-parameter type inside a generic helper of clone.go
+	// (other than the two primitives themselves): the kinds are the helper's instantiations
+	for _, tp := range tpUses {
+		for _, f := range p.Syntax {
+			if !strings.HasSuffix(w.Fset.Position(f.Pos()).Filename, "clone.go") {
+				continue
+			}
+			ast.Inspect(f, func(x ast.Node) bool {
+				id, ok := x.(*ast.Ident)
+				if !ok {
+					return true
+				}
+				inst, ok := info.Instances[id]
+				if !ok || inst.TypeArgs == nil {
+					return true
+				}
+				fo, ok := info.Uses[id].(*types.Func)
+				if !ok || (upd != nil && fo.Origin() == upd.Obj) || (updO != nil && fo.Origin() == updO.Obj) {
+					return true
+				}
+				sig, ok := fo.Origin().Type().(*types.Signature)
+				if !ok || sig.TypeParams() == nil {
+					return true
+				}
+				for i := 0; i < sig.TypeParams().Len() && i < inst.TypeArgs.Len(); i++ {
+					if sig.TypeParams().At(i) == tp {
+						if _, still := inst.TypeArgs.At(i).(*types.TypeParam); !still {
+							cloneKinds[inst.TypeArgs.At(i).String()] = true
+						}
+					}
+				}
+				return true
+			})
+		}
 	}
 	var all []string
 	for k := range writerKinds {
